@@ -10,4 +10,9 @@ var (
 	// ErrIncompatible means it is trying to unmarshal data from an incompatible
 	// version.
 	ErrIncompatible = errors.New("incompatible with marshaled data")
+
+	// ErrStepTooLong means that without the InnerPrefix option a single-branch
+	// run of the keys is too long to be recorded: a step is stored as a 16-bit
+	// count of 4-bit words.
+	ErrStepTooLong = errors.New("common part of keys is too long to be stored as a step")
 )
